@@ -210,7 +210,13 @@ Definition ex_dump3 : dump :=
                    (Some (bs_of_N 1)) (Some (bs_of_N 1)) None None 0 0 (-1) (-1) (-1) (-1) (-1) (-1) (-1) in
   let numa := mkDobj 2 HWLOC_OBJ_NUMANODE HWLOC_TYPE_DEPTH_NUMANODE 0 None (PId 0) PNull PNull PNull PNull PNull PNull 0 0 0 0 0 0 None [] [] [] []
                    (Some (bs_of_N 1)) (Some (bs_of_N 1)) None None 0 0 (-1) (-1) (-1) (-1) (-1) (-1) (-1) in
-  mkDump 0 2 3 [] None None [] [] [m; pu; numa].
+  mkDump 0 2 3 [] None None
+         [mkLevel 0 (Z.of_N HWLOC_OBJ_MACHINE) 1 [PId 0] PNull; mkLevel 1 (Z.of_N HWLOC_OBJ_PU) 1 [PId 1] PNull;
+          mkLevel HWLOC_TYPE_DEPTH_NUMANODE (Z.of_N HWLOC_OBJ_NUMANODE) 1 [PId 2] PNull]
+         [0; -1; -1; -1; 1; -1; -1; -1; -1; -1; -1; -1; -1; -1;
+          HWLOC_TYPE_DEPTH_NUMANODE; HWLOC_TYPE_DEPTH_MEMCACHE; HWLOC_TYPE_DEPTH_BRIDGE; HWLOC_TYPE_DEPTH_PCI_DEVICE;
+          HWLOC_TYPE_DEPTH_OS_DEVICE; HWLOC_TYPE_DEPTH_MISC]%Z
+         [m; pu; numa].
 
 (* ---------- hwloc_get_common_ancestor_obj ---------- *)
 
@@ -273,6 +279,51 @@ Theorem same_locality_sound_complete : forall d src ty,
   end.
 Proof. exact same_locality_sound_complete_l. Qed.
 Print Assumptions same_locality_sound_complete.
+
+(* ---------- hwloc_get_type_depth / hwloc_get_depth_type ---------- *)
+
+(* for ALL dumps whose per-depth tables are consistent (tables_ok: the clauses of wf_check about
+   levels and type depths) and ALL types / depths: the lookups are mutually inverse wherever
+   get_type_depth gives a depth (normal or special); a depth's type maps back to it or to MULTIPLE *)
+Theorem type_depth_inverse : forall d, tables_ok d ->
+  (forall ty, ty < HWLOC_OBJ_TYPE_MAX ->
+     let dep := get_type_depth d (Z.of_N ty) in
+     (0 <= dep)%Z \/ special_depth_of ty = Some dep -> get_depth_type d dep = Z.of_N ty) /\
+  (forall dep, (0 <= dep < t_depth d)%Z ->
+     let ty := get_depth_type d dep in
+     (0 <= ty < Z.of_N HWLOC_OBJ_TYPE_MAX)%Z -> get_type_depth d ty = dep \/ get_type_depth d ty = HWLOC_TYPE_DEPTH_MULTIPLE).
+Proof. exact type_depth_inverse_l. Qed.
+Print Assumptions type_depth_inverse.
+
+Example ex_tables_ok : tables_ok ex_dump3 /\
+  get_type_depth ex_dump3 (Z.of_N HWLOC_OBJ_PU) = 1%Z /\ get_depth_type ex_dump3 1 = Z.of_N HWLOC_OBJ_PU /\
+  get_depth_type ex_dump3 (get_type_depth ex_dump3 (Z.of_N HWLOC_OBJ_NUMANODE)) = Z.of_N HWLOC_OBJ_NUMANODE.
+Proof.
+  split; [|vm_compute; auto].
+  constructor.
+  - intros l H D. cbn in H. destruct H as [<- | [<- | [<- | []]]].
+    + split; [reflexivity|]. split; [reflexivity|]. eexists. eexists. split; reflexivity.
+    + split; [reflexivity|]. split; [reflexivity|]. eexists. eexists. split; reflexivity.
+    + exfalso. vm_compute in D. now apply D.
+  - intros dep [D1 D2]. change (t_depth ex_dump3) with 2%Z in D2.
+    assert (C : dep = 0%Z \/ dep = 1%Z) by lia. destruct C as [-> | ->].
+    + eexists. split; [left; reflexivity|reflexivity].
+    + eexists. split; [right; left; reflexivity|reflexivity].
+  - intros ty Hty Hd. assert (C : In ty all_types) by (apply all_types_complete; exact Hty). vm_compute in C.
+    repeat (destruct C as [<- | C];
+            [first [ exfalso; vm_compute in Hd; now apply Hd
+                   | eexists; split; [left; reflexivity|split; reflexivity]
+                   | eexists; split; [right; left; reflexivity|split; reflexivity] ]|]).
+    contradiction.
+  - intros ty sd Hty Hs. assert (C : In ty all_types) by (apply all_types_complete; exact Hty). vm_compute in C.
+    repeat (destruct C as [<- | C]; [first [ discriminate Hs | (vm_compute in Hs; inversion Hs; subst; reflexivity) ]|]).
+    contradiction.
+  - intros l H D Ht. cbn in H. destruct H as [<- | [<- | [<- | []]]].
+    + left. reflexivity.
+    + left. reflexivity.
+    + exfalso. vm_compute in D. now apply D.
+  - vm_compute. discriminate.
+Qed.
 
 (* ---------- hwloc_bitmap_singlify_per_core ---------- *)
 
